@@ -973,6 +973,135 @@ pub proof fn lemma_equality_is_reflexive<D: GarnishData>(cells: Map<D::Size, Cel
     lemma_weq_reflexive::<D>(cells, seq![x, x], fuel);
 }
 
+/// three queues in lockstep: position by position they hold the pairs (a, b), (b, c) and (a, c)
+pub open spec fn tri<T>(wab: Seq<T>, wbc: Seq<T>, wac: Seq<T>) -> bool {
+    wab.len() % 2 == 0 && wbc.len() == wab.len() && wac.len() == wab.len()
+    && forall|i: int| 0 <= i < wab.len() && i % 2 == 0 ==> #[trigger] wab[i] == wac[i] && wab[i + 1] == wbc[i] && wbc[i + 1] == wac[i + 1]
+}
+
+pub proof fn lemma_zipn_tri<T>(a: Seq<T>, b: Seq<T>, c: Seq<T>, n: nat)
+    requires n <= a.len(), n <= b.len(), n <= c.len()
+    ensures tri(zipn(a, b, n), zipn(b, c, n), zipn(a, c, n))
+    decreases n
+{
+    lemma_zipn_len(a, b, n); lemma_zipn_len(b, c, n); lemma_zipn_len(a, c, n);
+    if n > 0 {
+        lemma_zipn_tri(a, b, c, (n - 1) as nat);
+        lemma_zipn_len(a, b, (n - 1) as nat); lemma_zipn_len(b, c, (n - 1) as nat); lemma_zipn_len(a, c, (n - 1) as nat);
+        let x = zipn(a, b, n); let y = zipn(b, c, n); let z = zipn(a, c, n);
+        let x0 = zipn(a, b, (n - 1) as nat); let y0 = zipn(b, c, (n - 1) as nat); let z0 = zipn(a, c, (n - 1) as nat);
+        assert forall|i: int| 0 <= i < x.len() && i % 2 == 0 implies #[trigger] x[i] == z[i] && x[i + 1] == y[i] && y[i + 1] == z[i + 1] by {
+            if i < x0.len() {
+                assert(x[i] == x0[i] && x[i + 1] == x0[i + 1] && y[i] == y0[i] && y[i + 1] == y0[i + 1] && z[i] == z0[i] && z[i + 1] == z0[i + 1]);
+                assert(x0[i] == z0[i]);
+            }
+        }
+    }
+}
+
+pub proof fn lemma_tri_append<T>(x1: Seq<T>, x2: Seq<T>, x3: Seq<T>, y1: Seq<T>, y2: Seq<T>, y3: Seq<T>)
+    requires tri(x1, x2, x3), tri(y1, y2, y3)
+    ensures tri(x1 + y1, x2 + y2, x3 + y3)
+{
+    let a = x1 + y1; let b = x2 + y2; let c = x3 + y3;
+    assert forall|i: int| 0 <= i < a.len() && i % 2 == 0 implies #[trigger] a[i] == c[i] && a[i + 1] == b[i] && b[i + 1] == c[i + 1] by {
+        if i < x1.len() { assert(x1[i] == x3[i]); }
+        else { let j = i - x1.len(); assert(y1[j] == y3[j]); }
+    }
+}
+
+/// one step: if (a, b) and (b, c) pass, so does (a, c), and the pairs they queue stay in lockstep
+#[verifier::rlimit(300)]
+#[verifier::spinoff_prover]
+pub proof fn lemma_deq_transitive<D: GarnishData>(cells: Map<D::Size, Cell<D::Size, D::Number, D::Symbol, D::Char, D::Byte>>, a: D::Size, b: D::Size, c: D::Size)
+    requires
+        deq::<D>(cells, a, b).0, deq::<D>(cells, b, c).0,
+        forall|x: D::Number, y: D::Number, z: D::Number| #![trigger D::num_eq(x, y), D::num_eq(y, z)] D::num_eq(x, y) && D::num_eq(y, z) ==> D::num_eq(x, z),
+    ensures deq::<D>(cells, a, c).0, tri(deq::<D>(cells, a, b).1, deq::<D>(cells, b, c).1, deq::<D>(cells, a, c).1)
+{
+    D::axioms();
+    let ca = cells[a]; let cb = cells[b]; let cc = cells[c];
+    let none = Seq::<D::Size>::empty();
+    assert(tri(none, none, none));
+    if is_seq_ty(ca.ty) && is_seq_ty(cb.ty) {
+        assert(is_seq_ty(cc.ty));
+        let fa = flat_items::<D>(cells, a); let fb = flat_items::<D>(cells, b); let fc = flat_items::<D>(cells, c);
+        lemma_zipn_tri(fa, fb, fc, fa.len());
+    } else if ca.ty == GarnishDataType::Pair && cb.ty == GarnishDataType::Pair {
+        assert(cc.ty == GarnishDataType::Pair);
+        assert(tri(seq![ca.a, cb.a, ca.b, cb.b], seq![cb.a, cc.a, cb.b, cc.b], seq![ca.a, cc.a, ca.b, cc.b]));
+    } else {
+        assert(!is_seq_ty(cc.ty) || !is_seq_ty(cb.ty));
+        lemma_seq_eq_transitive_parts::<D>(ca.parts, cb.parts, cc.parts);
+        // text and byte lists, and the single character / byte that equals the one-element list of it
+        if seq_eq(ca.chars, cb.chars) && seq_eq(cb.chars, cc.chars) {
+            assert forall|i: int| 0 <= i < ca.chars.len() implies #[trigger] ca.chars[i].eq_spec(&cc.chars[i]) by { assert(ca.chars[i].eq_spec(&cb.chars[i])); assert(cb.chars[i].eq_spec(&cc.chars[i])); }
+        }
+        if seq_eq(ca.bytes, cb.bytes) && seq_eq(cb.bytes, cc.bytes) {
+            assert forall|i: int| 0 <= i < ca.bytes.len() implies #[trigger] ca.bytes[i].eq_spec(&cc.bytes[i]) by { assert(ca.bytes[i].eq_spec(&cb.bytes[i])); assert(cb.bytes[i].eq_spec(&cc.bytes[i])); }
+        }
+        if ca.chars.len() == 1 && cc.chars.len() == 1 && ca.chars[0] == cc.chars[0] {
+            assert forall|i: int| 0 <= i < ca.chars.len() implies #[trigger] ca.chars[i].eq_spec(&cc.chars[i]) by {}
+        }
+        if ca.bytes.len() == 1 && cc.bytes.len() == 1 && ca.bytes[0] == cc.bytes[0] {
+            assert forall|i: int| 0 <= i < ca.bytes.len() implies #[trigger] ca.bytes[i].eq_spec(&cc.bytes[i]) by {}
+        }
+        if seq_eq(ca.chars, cb.chars) && ca.chars.len() >= 1 { assert(ca.chars[0].eq_spec(&cb.chars[0])); }
+        if seq_eq(cb.chars, cc.chars) && cb.chars.len() >= 1 { assert(cb.chars[0].eq_spec(&cc.chars[0])); }
+        if seq_eq(ca.bytes, cb.bytes) && ca.bytes.len() >= 1 { assert(ca.bytes[0].eq_spec(&cb.bytes[0])); }
+        if seq_eq(cb.bytes, cc.bytes) && cb.bytes.len() >= 1 { assert(cb.bytes[0].eq_spec(&cc.bytes[0])); }
+    }
+}
+
+pub proof fn lemma_seq_eq_transitive_parts<D: GarnishData>(a: Seq<SymbolListPart<D::Symbol, D::Number>>, b: Seq<SymbolListPart<D::Symbol, D::Number>>, c: Seq<SymbolListPart<D::Symbol, D::Number>>)
+    requires forall|x: D::Number, y: D::Number, z: D::Number| #![trigger D::num_eq(x, y), D::num_eq(y, z)] D::num_eq(x, y) && D::num_eq(y, z) ==> D::num_eq(x, z),
+    ensures seq_eq(a, b) && seq_eq(b, c) ==> seq_eq(a, c)
+{
+    D::axioms();
+    if seq_eq(a, b) && seq_eq(b, c) {
+        assert forall|i: int| 0 <= i < a.len() implies #[trigger] a[i].eq_spec(&c[i]) by { assert(a[i].eq_spec(&b[i])); assert(b[i].eq_spec(&c[i])); }
+    }
+}
+
+/// `a == b` and `b == c` (both true within `fuel` steps) give `a == c`, provided numeric equality is transitive (K1 proves it for
+/// SimpleNumber: harness `eq_transitive`)
+//@@LEMMA C11
+pub proof fn lemma_weq_transitive<D: GarnishData>(cells: Map<D::Size, Cell<D::Size, D::Number, D::Symbol, D::Char, D::Byte>>, wab: Seq<D::Size>, wbc: Seq<D::Size>, wac: Seq<D::Size>, fuel: nat)
+    requires
+        tri(wab, wbc, wac), weq::<D>(cells, wab, fuel) == Some(true), weq::<D>(cells, wbc, fuel) == Some(true),
+        forall|x: D::Number, y: D::Number, z: D::Number| #![trigger D::num_eq(x, y), D::num_eq(y, z)] D::num_eq(x, y) && D::num_eq(y, z) ==> D::num_eq(x, z),
+    ensures weq::<D>(cells, wac, fuel) == Some(true)
+    decreases fuel
+{
+    if wab.len() >= 2 {
+        let n = wab.len();
+        let a = wab[n - 2]; let b = wab[n - 1]; let c = wbc[n - 1];
+        assert(wab[n - 2] == wac[n - 2] && wab[n - 2 + 1] == wbc[n - 2] && wbc[n - 2 + 1] == wac[n - 2 + 1]);
+        assert(wbc[n - 2] == b && wac[n - 2] == a && wac[n - 1] == c);
+        assert(fuel > 0);
+        lemma_deq_transitive::<D>(cells, a, b, c);
+        let x1 = wab.take(n - 2); let x2 = wbc.take(n - 2); let x3 = wac.take(n - 2);
+        assert(tri(x1, x2, x3)) by {
+            assert forall|i: int| 0 <= i < x1.len() && i % 2 == 0 implies #[trigger] x1[i] == x3[i] && x1[i + 1] == x2[i] && x2[i + 1] == x3[i + 1] by {
+                assert(wab[i] == wac[i]);
+            }
+        }
+        lemma_tri_append(x1, x2, x3, deq::<D>(cells, a, b).1, deq::<D>(cells, b, c).1, deq::<D>(cells, a, c).1);
+        lemma_weq_transitive::<D>(cells, x1 + deq::<D>(cells, a, b).1, x2 + deq::<D>(cells, b, c).1, x3 + deq::<D>(cells, a, c).1, (fuel - 1) as nat);
+    }
+}
+
+//@@LEMMA C11
+pub proof fn lemma_equality_is_transitive<D: GarnishData>(cells: Map<D::Size, Cell<D::Size, D::Number, D::Symbol, D::Char, D::Byte>>, a: D::Size, b: D::Size, c: D::Size, fuel: nat)
+    requires
+        weq::<D>(cells, seq![a, b], fuel) == Some(true), weq::<D>(cells, seq![b, c], fuel) == Some(true),
+        forall|x: D::Number, y: D::Number, z: D::Number| #![trigger D::num_eq(x, y), D::num_eq(y, z)] D::num_eq(x, y) && D::num_eq(y, z) ==> D::num_eq(x, z),
+    ensures weq::<D>(cells, seq![a, c], fuel) == Some(true)
+{
+    assert(tri(seq![a, b], seq![b, c], seq![a, c]));
+    lemma_weq_transitive::<D>(cells, seq![a, b], seq![b, c], seq![a, c], fuel);
+}
+
 pub trait GarnishData: Sized {
     type Error: std::error::Error + 'static;
     type Symbol: Default + Display + Debug + PartialOrd + TypeConstants + Clone;
